@@ -5,6 +5,7 @@ open Verif.Props.C01D
 #print axioms merge_assign_sound_counterexample
 #print axioms merge_assign_sound_partial
 #print axioms merge_assign_sound_partial_prog
+#print axioms comma_split_sound
 #print axioms merge_hoisted_sound
 #print axioms hoist_names
 #print axioms hoist_sound
